@@ -362,6 +362,56 @@ pub fn run(cx: &mut Ctx) {
         cx.require_class("validators-vs-std", cl, 50);
     }
 
+    // ---- large inputs: engines that window or chunk the input (64 KiB broadword windows,
+    // 32-byte SIMD blocks over long runs) must still report the same offset/kind/line/column.
+    // A short generated case is embedded after a long valid prefix built by tiling a small
+    // valid mixed-width piece (with line breaks), so the first defect lies 0..400 KiB in.
+    cx.check(
+        "validators-vs-std-large",
+        "a generated defect case (as in validators-vs-std) placed after a 0..400 KiB valid prefix tiled from a small mixed-width piece with LF line breaks; same oracle",
+        Budget { quick: 6_000, thorough: 400_000, max_len: 1400 },
+        |u, st| {
+            let c = gen_case(u, 70);
+            // the tile: valid UTF-8 of mixed widths, optionally with LF
+            let mut tile: Vec<u8> = Vec::new();
+            for _ in 0..u.range(1, 40) {
+                match u.below(6) {
+                    0 => tile.extend_from_slice("é".as_bytes()),
+                    1 => tile.extend_from_slice("あ".as_bytes()),
+                    2 => tile.extend_from_slice("😀".as_bytes()),
+                    3 => tile.push(b'\n'),
+                    _ => tile.push(b'a' + u.below(26) as u8),
+                }
+            }
+            let target = match u.below(6) {
+                0 => u.range(0, 4096),
+                1 => u.range(65_536 - 64, 65_536 + 64),
+                2 => u.range(131_072 - 64, 131_072 + 64),
+                3 => u.range(60_000, 70_000),
+                _ => u.range(0, 400_000),
+            };
+            let mut x: Vec<u8> = Vec::with_capacity(target + tile.len() + c.bytes.len());
+            while x.len() < target {
+                x.extend_from_slice(&tile);
+            }
+            let prefix_len = x.len();
+            x.extend_from_slice(&c.bytes);
+            st.class_if(prefix_len > 65_536, "defect-beyond-64KiB");
+            st.class_if(prefix_len > 131_072, "defect-beyond-128KiB");
+            st.class_if(prefix_len > 65_536 && tile.contains(&b'\n'), "defect-beyond-64KiB-with-LF-before");
+            st.class_if(core::str::from_utf8(&x).is_err(), "std-invalid");
+            if prefix_len > 65_536 {
+                st.nontrivial(hash_bytes(&c.bytes) ^ mix64(prefix_len as u64) ^ hash_bytes(&tile));
+            }
+            st.size(x.len());
+            st.describe(|| json!({"tile_hex": hex(&tile), "prefix_len": prefix_len, "tail_hex": hex(&c.bytes), "note": "input = tile repeated up to prefix_len bytes, then tail"}));
+            st.sample("large", || json!({"prefix_len": prefix_len, "tile": show_bytes(&tile), "tail": show_bytes(&c.bytes)}));
+            check_bytes(&x, st)
+        },
+    );
+    cx.require_class("validators-vs-std-large", "defect-beyond-64KiB-with-LF-before", 200);
+    cx.require_class("validators-vs-std-large", "std-invalid", 500);
+
     // ---- exhaustive short inputs, plain and straddling a 32-byte boundary
     cx.exhaustive(
         "every-1-2-3-byte-input",
